@@ -122,15 +122,15 @@ class _Watchdog:
         if self.active:
             def _raise(signum, frame):
                 raise Hang()
-            self.old = signal.signal(signal.SIGALRM, _raise)
-            signal.setitimer(signal.ITIMER_REAL, self.secs)
+            self.old = signal.signal(signal.SIGPROF, _raise)
+            signal.setitimer(signal.ITIMER_PROF, self.secs)
         return self
 
     def __exit__(self, *a):
         if self.active:
             import signal
-            signal.setitimer(signal.ITIMER_REAL, 0)
-            signal.signal(signal.SIGALRM, self.old)
+            signal.setitimer(signal.ITIMER_PROF, 0)
+            signal.signal(signal.SIGPROF, self.old)
         return False
 
 
